@@ -325,6 +325,13 @@ def run(res, tier, seed, shard, nshards):
                     stored3 = check_returned(db.all(sorted=False), exp, "all() after update(time=callable)", dict(ctx, delta_us=delta))
                     if stored3 is None:
                         continue
+                    # time order after the times were changed (whatever the database remembers about the old order)
+                    order3 = sorted(range(n), key=lambda i: stored3[i])
+                    res.count("sorted_checks_after_time_updates")
+                    for what, got3 in (("all(sorted=True)", db.all(sorted=True)), ("search(sorted=True)", db.search(TagQuery().i.exists(), sorted=True))):
+                        if [p.tags["i"] for p in got3] != [str(i) for i in order3]:
+                            bad("time-sort-wrong-or-unstable", dict(ctx, what=what + " after update(time=...)", expected=[str(i) for i in order3], observed=[p.tags["i"] for p in got3], stored_us=stored3), rep)
+                            break
                     if check_returned(db.get_timestamps(), exp, "get_timestamps after update", ctx) is None:
                         continue
                     if storage == "csv":
@@ -378,6 +385,7 @@ def finalize(res, tier):
     res.require("comparisons.scan")
     res.require("windows.index")
     res.require("time_given_by_assignment")
+    res.require("sorted_checks_after_time_updates")
     res.require("windows.scan")
     res.require("presented.naive_in_repeated_hour")
     res.require("presented.naive_in_repeated_hour_second_occurrence")
